@@ -902,7 +902,20 @@ def design(draw, flavor, reset=None, max_stmts=5, depth=2):
             senv = env.child()
             senv.subs = []
             senv.loc_vecs = list(params)
-            body = draw(block(senv, 1, min_size=1, max_size=3, in_sub=True))
+            shape = draw(st.sampled_from(["flat", "flat", "deep", "early_exit", "early_exit"]))
+            if shape == "early_exit":
+                # a loop whose header state has several exits (condition false, break/return before the first await) while
+                # another path keeps iterating: what follows `await sub()` belongs to the exits only
+                ienv = senv.inputs_only()
+                sm = lambda: draw(simple_stmt(senv.child()))  # noqa: E731
+                opt = lambda: [sm()] if draw(st.booleans()) else []  # noqa: E731
+                leave = draw(st.sampled_from([{"k": "break"}, {"k": "break"}, {"k": "return", "e": None}]))
+                guard = {"k": "if", "arms": [[draw(cond_expr(ienv, 1)), opt() + [leave]]], "else": None}
+                aw = {"k": "await", "c": draw(st.one_of(st.just("true"), cond_expr(ienv, 1)))}
+                inner = opt() + ([guard, aw] if draw(st.integers(0, 3)) else [aw, guard]) + opt()
+                body = opt() + [{"k": "while", "c": draw(st.one_of(st.just("true"), cond_expr(ienv, 1))), "body": inner}] + opt()
+            else:
+                body = draw(block(senv, 2 if shape == "deep" else 1, min_size=1, max_size=3, in_sub=True))
             spec["subs"].append({"name": f"sub{i}", "params": params, "body": body})
         env.subs = spec["subs"]
     if flavor == "conc":
